@@ -15,7 +15,7 @@ SCOPE = {
               "btree": dict(EXH_KEYS=4, EXH_DEPTH=5, PERM_N=8, PERM_REMOVALS=1, PERM_EXTRA=2, DEEP_MIN=8, DEEP_MAX=16, DEEP_REMOVALS=2, ORDERS="3, 4, 5")},
  "thorough": {"rbt": dict(EXH_KEYS=4, EXH_DEPTH=6, PERM_N=8, PERM_REMOVALS=2, PERM_EXTRA=2, DEEP_MIN=8, DEEP_MAX=28, DEEP_REMOVALS=3),
               "avl": dict(EXH_KEYS=4, EXH_DEPTH=6, PERM_N=8, PERM_REMOVALS=2, PERM_EXTRA=2, DEEP_MIN=8, DEEP_MAX=28, DEEP_REMOVALS=3),
-              "btree": dict(EXH_KEYS=4, EXH_DEPTH=6, PERM_N=8, PERM_REMOVALS=2, PERM_EXTRA=2, DEEP_MIN=8, DEEP_MAX=20, DEEP_REMOVALS=3, ORDERS="3, 4, 5, 6, 7")},
+              "btree": dict(EXH_KEYS=4, EXH_DEPTH=6, PERM_N=8, PERM_REMOVALS=2, PERM_EXTRA=2, DEEP_MIN=8, DEEP_MAX=12, DEEP_REMOVALS=2, ORDERS="3, 4, 5, 6, 7")},
 }
 # which stand-ins back which property
 BY_PROP = {"C01": ["rbt", "avl", "btree"], "C02": ["rbt", "avl", "btree"], "C07": ["rbt", "avl", "btree"], "C08": ["btree"],
